@@ -8,9 +8,9 @@ from .common_diff import run_cases, generic_replay
 PROOF_MODULE = "Nlmodel.Proofs.C11"
 PROOF_FILES = ["Nlmodel/Proofs/C11.lean", "Nlmodel/Proofs/Lemmas/EmitSize.lean", "Nlmodel/Model/Compiler.lean", "Nlmodel/Spec/Eval.lean"]
 THEOREM_FILE = PROOF_FILES[0]
-LEVEL_TEXT = ("Lean theorems: (code generation) the emitted code of every expression, statement and block has its static size for every position, loop context and constant pool, hence the jump targets of `als` are the first instruction of the else-code and the first instruction after the expression, those of `zolang` are the loop head and the loop exit, `stop`/`volgende` jump to exit/head of the INNERMOST loop, function bodies are compiled without an inherited loop and `antwoord` outside a function is rejected; (definitional semantics) exactly one branch of an `als` runs and a non-boolean condition runs none, a loop ends when the condition is `nee`, `stop` completes the innermost loop with null, `volgende` restarts it. Tied to compiler.rs/vm.rs by real eval vs definitional evaluator on a complete enumeration of a template set (if-chains x loops x blocks x early exits, every placement of stop/volgende/antwoord, if/while as statements and as values), loops run 0, 1, 2 and 70 000 times, and a residue probe on the real VM (operand-stack height at every loop head and at Halt).")
-LEVEL_NOTE = ("Trusted: Lean kernel; the 'no residue' claim is a theorem only at the level of jump targets and the definitional semantics; on the machine it is decided by the residue probe (hook) and by the model's step/stack correspondence. Known finding K3: stop/volgende evaluated under pending operands leave those operands on the stack (values stay correct).")
-TECHNIQUE = "Lean 4 proof (static sizes => jump targets; structural semantics of control flow) + template enumeration with residue probe"
+LEVEL_TEXT = ("Lean theorems: (code generation) the emitted code of every expression, statement and block has its static size for every position, loop context and constant pool, hence the jump targets of `als` are the first instruction of the else-code and the first instruction after the expression, those of `zolang` are the loop head and the loop exit, `stop`/`volgende` jump to exit/head of the INNERMOST loop, function bodies are compiled without an inherited loop and `antwoord` outside a function is rejected; (definitional semantics) exactly one branch of an `als` runs and a non-boolean condition runs none, a loop ends when the condition is `nee`, `stop` completes the innermost loop with null, `volgende` restarts it; (machine, C11_no_residue - instance of the forward simulation of C01 stages 3/4) an `als`/`zolang` expression of the fragment (scalars, global and local variables, calls, `stop`/`volgende` where no operand is pending) started on ANY operand stack ends at the end of its code with exactly its value pushed and nothing else, `stop`/`volgende` arrive at the exit/head of the innermost loop with exactly `null` pushed on the stack the loop body started with, for any number of iterations; K3 is proved as a kernel-checked counterexample (C11_K3_witness). Tied to compiler.rs/vm.rs by real eval vs definitional evaluator on a complete enumeration of a template set (if-chains x loops x blocks x early exits, every placement of stop/volgende/antwoord, if/while as statements and as values), loops run 0, 1, 2 and 70 000 times, and a residue probe on the real VM (operand-stack height at every loop head and at Halt).")
+LEVEL_NOTE = ("Trusted: Lean kernel; the machine-level 'no residue' theorem covers the scalar/function fragment of the C01 simulation; for heap values and builtins it is decided by the residue probe (hook) and by the model's step/stack correspondence. Known finding K3: stop/volgende evaluated under pending operands leave those operands on the stack; when such a loop is itself a later operand (array element, right operand, argument) the enclosing operator consumes the residue instead of the earlier operand, so the VALUE is wrong (`[5, zolang ja { 1 + als ja { stop } }]` gives [1, null] instead of [5, null]).")
+TECHNIQUE = "Lean 4 proof (static sizes => jump targets; structural semantics of control flow; machine-level no-residue by forward simulation) + template enumeration with residue probe"
 RULE = ("complete enumeration of templates: if-chains (1-3 arms, with/without else) x loop bodies x exits (stop, volgende, antwoord, none) at "
         "every depth <= 3, as statement and as value, inside and outside functions; loops of 0, 1, 2, 5 and 70 000 iterations; random "
         "nesting to depth 5; non-trivial = distinct program compared, and its residue probe evaluated")
@@ -57,6 +57,13 @@ def templates():
     return out
 
 
+K3_PROBES = [
+    "stel x = 0; zolang x < 40 { x += 1; 1 + als ja { volgende } anders { 1 } }; x",
+    "[5, zolang ja { 1 + als ja { stop } }]",
+    "stel x = 0; [7, zolang x < 3 { x += 1; 10 + als x == 2 { stop } anders { 1 } }]",
+]
+
+
 def rng_wrap(k, inner):
     forms = ["als ja { %s };", "{ %s };", "stel q%d = 0; zolang q%d < 2 { q%d += 1; %s };" % (k, k, k, "%s"), "als nee { 1 } anders { %s };"]
     return forms[k % len(forms)] % inner
@@ -83,16 +90,19 @@ def run(res, tier, rng, table_diffs=()):
             return "values were left on the operand stack when the program ended (residue)"
         return None
     run_cases(res, "C11", cases, budget=3000000, extra_oracle=residue)
-    # K3 probe: stop/volgende under pending operands (known finding: residue, values still right)
-    k3 = "stel x = 0; zolang x < 40 { x += 1; 1 + als ja { volgende } anders { 1 } }; x"
-    r = diff.one(k3)
+    # K3 probes: stop/volgende under pending operands (known finding).  (a) the residue itself; (b) its
+    # consequence for values: a loop left that way which is itself a later operand makes the enclosing
+    # operator consume the residue instead of the earlier operand
     res.seen("K3")
-    st = diff.stats(r["impl"])
-    if st.get("loopdrift", "0") != "0" or st.get("halt", "0") != "0":
-        res.violation("stop/volgende evaluated while an enclosing expression holds pending operands leave those operands on the stack",
-                      dict(kind="pending-operand-residue", input=k3, impl=r["impl"]))
-    if diff.classify(r)[0] != "ok":
-        res.violation("wrong value for stop/volgende under pending operands", dict(kind="spec-mismatch", input=k3, impl=r["impl"], spec=r["spec"]))
+    for k3 in K3_PROBES:
+        r = diff.one(k3, 3000000)
+        st = diff.stats(r["impl"])
+        residue_seen = st.get("loopdrift", "0") != "0" or st.get("halt", "0") != "0"
+        cls = diff.classify(r)
+        if residue_seen or cls[0] != "ok":
+            res.violation("stop/volgende evaluated while an enclosing expression holds pending operands leave those operands on the stack"
+                          + ("; the value differs from the definitional semantics: " + cls[1] if cls[0] != "ok" else ""),
+                          dict(kind="pending-operand-residue", input=k3, impl=r["impl"], spec=r.get("spec")))
 
 
 _generic = generic_replay("C11")
@@ -103,7 +113,7 @@ def replay(res, rp):
         r = diff.one(rp["input"], 3000000)
         st = diff.stats(r["impl"])
         print(r["impl"][-120:])
-        if st.get("loopdrift", "0") != "0" or st.get("halt", "0") != "0":
+        if st.get("loopdrift", "0") != "0" or st.get("halt", "0") != "0" or diff.classify(r)[0] != "ok":
             print("VIOLATION property=C11 replay=replay")
             return 1
         return 0
